@@ -43,6 +43,13 @@ closestPoints (
     T       d    = 1 - d1d2 * d1d2;
     T       absD = abs (d);
 
+    // d is sin^2 of the angle between the (normalized) directions.  Within a
+    // few rounding units of zero it is noise: for exactly parallel lines
+    // d1d2 is 1 +- a few ulps, d != 0, and n1/d, n2/d are arbitrary finite
+    // numbers.  Report such lines as parallel, as documented.
+    if (absD <= 16 * std::numeric_limits<T>::epsilon ())
+        return false;
+
     if ((absD > 1) || (abs (n1) < std::numeric_limits<T>::max () * absD &&
                        abs (n2) < std::numeric_limits<T>::max () * absD))
     {
